@@ -21,8 +21,8 @@ fn send_op() -> impl Strategy<Value = Op> + Clone {
 fn pre_strategy() -> impl Strategy<Value = Pre> + Clone {
 	prop_oneof![
 		3 => any::<u16>().prop_map(|pay| Pre::Claim { pay }),
-		3 => (any::<u16>(), prop_oneof![Just(253u32), 253u32..2_000, 253u32..30_000]).prop_map(|(node, rate)| Pre::Fee { node, rate }),
-		2 => any::<u16>().prop_map(|node| Pre::Rebroadcast { node }),
+		4 => (any::<u16>(), prop_oneof![Just(253u32), 253u32..2_000, 1_000u32..8_000, 253u32..30_000]).prop_map(|(node, rate)| Pre::Fee { node, rate }),
+		4 => any::<u16>().prop_map(|node| Pre::Rebroadcast { node }),
 		1 => any::<u16>().prop_map(|node| Pre::Timer { node }),
 		1 => (any::<u16>(), 0u8..11).prop_map(|(node, style)| Pre::Style { node, style }),
 	]
@@ -30,17 +30,18 @@ fn pre_strategy() -> impl Strategy<Value = Pre> + Clone {
 
 fn step_strategy() -> impl Strategy<Value = Step> + Clone {
 	(
+		prop_oneof![8 => Just(None), 2 => prop_oneof![Just(0i8), Just(-1i8), Just(1i8), -6i8..4].prop_map(Some)],
 		proptest::collection::vec(pre_strategy(), 0..3),
 		prop_oneof![
-			5 => Just(Incl::All),
+			3 => Just(Incl::All),
 			2 => Just(Incl::Reverse),
-			4 => Just(Incl::Overdue),
+			6 => Just(Incl::Overdue),
 			2 => any::<u16>().prop_map(Incl::Pick),
 			2 => any::<u16>().prop_map(Incl::Prefer),
 		],
 		proptest::bool::weighted(0.8),
 	)
-		.prop_map(|(pre, incl, pump)| Step { pre, incl, pump })
+		.prop_map(|(advance, pre, incl, pump)| Step { advance, pre, incl, pump })
 }
 
 fn strat(topos: Vec<Topology>, max_prefix: usize, max_burst: usize, max_steps: usize) -> impl Strategy<Value = Case> {
@@ -48,7 +49,7 @@ fn strat(topos: Vec<Topology>, max_prefix: usize, max_burst: usize, max_steps: u
 		world_spec(topos),
 		proptest::collection::vec(0u8..11, 3),
 		proptest::collection::vec(op_strategy(traffic_weights()), 0..max_prefix),
-		proptest::collection::vec(send_op(), 1..max_burst),
+		proptest::collection::vec(send_op(), 2..max_burst),
 		proptest::collection::vec(op_strategy(settle_weights()), 0..16),
 		any::<u16>(),
 		prop_oneof![
@@ -56,8 +57,11 @@ fn strat(topos: Vec<Topology>, max_prefix: usize, max_burst: usize, max_steps: u
 			2 => (any::<bool>(), any::<bool>()).prop_map(|(of_funder, cut_link)| Close::MineHolder { of_funder, cut_link }),
 		],
 		proptest::collection::vec(step_strategy(), 3..max_steps),
-		0u8..=4,
-		any::<bool>(),
+		// confirmation delay bound of the case: mostly short, sometimes up to MAX_BLOCKS_FOR_CONF
+		// (the last class breaks the property's premise that claims confirm in time: timeliness verdicts are
+		// then vacuous by their own condition, but races between a preimage claim and a timeout really happen)
+		prop_oneof![6 => 0u8..=4, 4 => 3u8..=18, 2 => 19u8..=60],
+		proptest::bool::weighted(0.25),
 	)
 		.prop_map(|(mut spec, styles, prefix, burst, settle, chan, close, steps, max_delay, tail_reverse)| {
 			spec.deferred = false;
@@ -70,38 +74,41 @@ fn strat(topos: Vec<Topology>, max_prefix: usize, max_burst: usize, max_steps: u
 }
 
 fn oracle(c: &Case, ctx: &mut Ctx) -> CaseResult {
-	run_case(c, ctx, 460)
+	run_case(c, ctx, 520)
 }
 
 fn main() {
 	install_recording_signer();
 	let mut c = Check::new("C07", "exploration");
 	c.set_case_timeout_secs(240);
-	c.assume("both peers are unmodified LDK nodes (no revoked commitment is ever confirmed; that is C06); persistence is synchronous");
-	c.assume("consensus validity = libbitcoinconsensus script verification + nLockTime/BIP-68 height rules + inputs exist + fee >= 0, judged for the block after the tip at the moment the transaction is handed to the broadcaster; relay policy is not modelled");
-	c.assume("every valid mempool transaction confirms within the case's max_delay (0..4) blocks unless a conflicting one confirms first; which of two conflicting claims confirms is a generator choice; no reorgs (C11)");
-	c.assume("anchor channels: each node's wallet holds 12 confirmed 1-BTC UTXOs, so coin selection never fails");
-	c.assume("fee monotonicity tolerance 2 % (signature-size variance); SpendableOutputs are swept at 253 sat/kw to a per-node script by spend_spendable_outputs the moment they are announced");
+	let thorough = c.tier() == Tier::Thorough;
+	c.assume("both peers are unmodified LDK nodes (no revoked commitment is ever confirmed; that is C06); persistence is synchronous; no restarts");
+	c.assume("consensus validity = libbitcoinconsensus script verification + nLockTime/BIP-68 height rules + inputs exist + fee >= 0, judged for the block after the tip at the moment the transaction is handed to the broadcaster; relay policy is not modelled. A spend that lost to a transaction confirmed in the very block the node is processing is tolerated as stale");
+	c.assume("every valid mempool transaction confirms within the case's max_delay blocks (0..18 = MAX_BLOCKS_FOR_CONF in 5 of 6 cases, 19..60 in the rest) unless a conflicting one confirms first; which of two conflicting transactions confirms is a generator choice; no reorgs (C11)");
+	c.assume("anchor channels: each node's wallet holds 12 confirmed 1-BTC UTXOs, so coin selection never fails (the 'barely enough UTXOs' corner of the design is not generated)");
+	c.assume("fee monotonicity tolerance 2 % (signature-size variance, integer feerate rounding); SpendableOutputs are swept one event at a time at 253 sat/kw to a per-node script by spend_spendable_outputs the moment they are announced");
+	c.assume("tolerated and documented: a ClaimableAwaitingConfirmations entry of 0 sat for an absent balance output; an empty OP_RETURN output on the anchor CPFP child");
+	let (prefix, burst, steps) = if thorough { (40, 12, 60) } else { (22, 7, 30) };
 	c.part_with(
 		PartSpec {
 			name: "pair-close",
-			rule: "pair channel (all three channel types), generated traffic ending in a burst of sends and a partial settlement, closure by API force-close of either end (link up: both commitments race; link cut: one) or by confirming either end's latest holder commitment behind its back; then a generated chain schedule (which mempool transactions confirm, late claim_funds, sweep feerate changes, rebroadcast/timer calls, delivery styles) and a deterministic tail until everything is swept. Non-trivial: the confirmed commitment carried >=1 non-dust HTLC, the case ran to completion, and a claim was re-issued (fee bump) or both ends had competing claims for one output",
-			quick_cases: 700,
-			thorough_cases: 24_000,
+			rule: "pair channel (all three channel types), generated traffic ending in a burst of sends and a partial settlement, closure by API force-close of either end (link up: both commitments race; link cut: one) or by confirming either end's latest holder commitment behind its back; then a generated chain schedule (which mempool transactions confirm, jumps to an HTLC expiry +-k, late claim_funds, sweep feerate changes, rebroadcast/timer calls, delivery styles) and a deterministic tail until everything is swept. Non-trivial: the confirmed commitment carried >=1 non-dust HTLC, the case ran to completion, and a claim was re-issued, a BumpTransaction target was raised, or two conflicting transactions of the two ends were in the mempool",
+			quick_cases: 1500,
+			thorough_cases: 45_000,
 			max_shrink: 300,
 		},
-		|| strat(vec![Topology::Pair], 22, 6, 30),
+		move || strat(vec![Topology::Pair], prefix, burst, steps),
 		oracle,
 	);
 	c.part_with(
 		PartSpec {
 			name: "line3-close",
 			rule: "as pair-close on a 0-1-2 line with forwarded payments: the closed channel's HTLCs are forwards whose preimage arrives from the other channel (off chain or on chain); the other channel may time out and close by itself. Same non-triviality rule",
-			quick_cases: 300,
-			thorough_cases: 10_000,
+			quick_cases: 600,
+			thorough_cases: 15_000,
 			max_shrink: 300,
 		},
-		|| strat(vec![Topology::Line3], 22, 6, 30),
+		move || strat(vec![Topology::Line3], prefix, burst, steps),
 		oracle,
 	);
 	c.finish();
